@@ -9,4 +9,5 @@ import AJ.Spec
 import AJ.Model.Run
 import AJ.Model.Full
 import AJ.Model.Flat
+import AJ.Model.Why
 import AJ.Props
